@@ -44,6 +44,35 @@ theorem capSet_extMsg (caps : List Cap) : (capSet caps).extMsg = caps.contains .
     (by intro s c; cases c <;> simp [CapSet.add] <;> (rename_i b _; cases b <;> simp)) caps {}
   simp only [capSet, this, foldl_or_contains]; rfl
 
+theorem capSet_operational (caps : List Cap) : (capSet caps).operational = caps.contains .operational := by
+  have := foldl_add_proj (·.operational) (fun acc c => acc || (c == Cap.operational))
+    (by intro s c; cases c <;> simp [CapSet.add] <;> (rename_i b _; cases b <;> simp)) caps {}
+  simp only [capSet, this, foldl_or_contains]; rfl
+
+theorem capSet_linkLocal (caps : List Cap) : (capSet caps).linkLocal = caps.contains .linkLocal := by
+  have := foldl_add_proj (·.linkLocal) (fun acc c => acc || (c == Cap.linkLocal))
+    (by intro s c; cases c <;> simp [CapSet.add] <;> (rename_i b _; cases b <;> simp)) caps {}
+  simp only [capSet, this, foldl_or_contains]; rfl
+
+/-- a multisession capability of the given variant (RFC draft code 68 / Cisco code 131), any value -/
+def isMs (cisco : Bool) (c : Cap) : Bool := match c with | .multisession b _ => b == cisco | _ => false
+
+theorem foldl_or_any (caps : List Cap) (p : Cap → Bool) (b : Bool) :
+    caps.foldl (fun acc c => acc || p c) b = (b || caps.any p) := by
+  induction caps generalizing b with
+  | nil => simp
+  | cons c t ih => simp only [List.foldl_cons, ih, List.any_cons, Bool.or_assoc]
+
+theorem capSet_multisession (caps : List Cap) : (capSet caps).multisession = caps.any (isMs false) := by
+  have := foldl_add_proj (·.multisession) (fun acc c => acc || isMs false c)
+    (by intro s c; cases c <;> simp [CapSet.add, isMs] <;> (rename_i b _; cases b <;> simp)) caps {}
+  simp only [capSet, this, foldl_or_any]; rfl
+
+theorem capSet_multisessionCisco (caps : List Cap) : (capSet caps).multisessionCisco = caps.any (isMs true) := by
+  have := foldl_add_proj (·.multisessionCisco) (fun acc c => acc || isMs true c)
+    (by intro s c; cases c <;> simp [CapSet.add, isMs] <;> (rename_i b _; cases b <;> simp)) caps {}
+  simp only [capSet, this, foldl_or_any]; rfl
+
 /-! ### ASN4: the last one -/
 
 theorem capSet_asn4 (caps : List Cap) : (capSet caps).asn4 = asn4Of caps := by
